@@ -66,7 +66,8 @@ pub fn record(n: usize, out: &mut impl std::io::Write) {
 pub fn extreme_length_inputs() -> Vec<Vec<u8>> {
     let nums = [
         "0", "00", "1", "01", "4", "5", "2147483647", "2147483648", "4294967295", "4294967296", "9223372036854775807",
-        "9223372036854775808", "18446744073709551614", "18446744073709551615", "18446744073709551616", "18446744073709551617",
+        "9223372036854775808", "9223372036854775806", "4611686018427387904", "1152921504606846976", "281474976710656", "1099511627776",
+        "18446744073709551614", "18446744073709551615", "18446744073709551616", "18446744073709551617",
         "99999999999999999999999999999999", "-1", "+4", "4.0", "4e0", "0x4", "",
     ];
     let mut out = vec![];
@@ -105,16 +106,25 @@ pub fn binary(n: usize) -> Value {
         }
         seen.insert(packed, (t, p));
     }
-    // decoding is total also where a length field holds an extreme number
-    let mut extreme = 0;
-    for input in extreme_length_inputs() {
-        extreme += 1;
+    json!({"n": n, "bad": bad})
+}
+
+/// decode the k-th crafted input with an extreme length field (all of them for k = usize::MAX) through both entry
+/// points.  Run in a process of its own: an allocation failure or a stack overflow ends the process, and that is
+/// what the caller observes.
+pub fn extreme(k: usize) -> Value {
+    let inputs = extreme_length_inputs();
+    let mut bad = vec![];
+    for (n, input) in inputs.iter().enumerate() {
+        if k != usize::MAX && n != k {
+            continue;
+        }
         for which in 0..2 {
-            let r = if which == 0 { guarded(|| in_toto::verif::pae_unpack(&input).is_ok()) } else { guarded(|| in_toto::verif::pae_try_unpack(&input).is_ok()) };
-            if r.is_err() && bad.len() < 8 {
-                bad.push(json!({"decode_panics": String::from_utf8_lossy(&input), "entry": if which == 0 { "unpack" } else { "try_unpack" }}));
+            let r = if which == 0 { guarded(|| in_toto::verif::pae_unpack(input).is_ok()) } else { guarded(|| in_toto::verif::pae_try_unpack(input).is_ok()) };
+            if r.is_err() {
+                bad.push(json!({"decode_panics": String::from_utf8_lossy(input), "entry": if which == 0 { "unpack" } else { "try_unpack" }}));
             }
         }
     }
-    json!({"n": n, "extreme_length_inputs": extreme, "bad": bad})
+    json!({"inputs": inputs.len(), "bad": bad})
 }
